@@ -5,7 +5,7 @@ from __future__ import annotations
 import ast
 
 from ..dataflow import Defs
-from ..model import body_walk, dotted, idents_in, norm, unparse
+from ..model import FuncInfo, body_walk, dotted, full_walk, idents_in, norm, unparse
 from ..report import RuleResult
 from .common import cfg_of, need, site
 
@@ -539,7 +539,62 @@ def r03_11(ctx):
     )
 
 
-RULES = [r03_1, r03_2, r03_3, r03_4, r03_5, r03_6, r03_7, r03_8, r03_9, r03_10, r03_11]
+def r03_12(ctx):
+    rr = RuleResult(
+        "R03.12", "GUARD",
+        "a node that advertises UNKNOWN chunk sizes is protected by the grid contract: _materialize cannot restore an unknown layout by a rechunk (it raises), so the default answer "
+        "ArrayExpr._requires_grid_preservation tests the node's own chunks for NaN, and every class whose own chunks property manufactures NaN sizes resolves the question to that "
+        "default or to its own `return True`",
+        min_instances=4,
+    )
+    repo = ctx.repo
+    base = repo.mod("dask_array._expr").cls("ArrayExpr")
+    f = base.methods.get("_requires_grid_preservation")
+    need(f is not None, "ArrayExpr._requires_grid_preservation")
+
+    def nan_test_on_own_chunks(fn):
+        for n in full_walk(fn):
+            if isinstance(n, (ast.GeneratorExp, ast.ListComp)) and any("self.chunks" in unparse(g.iter) for g in n.generators):
+                for m in ast.walk(n.elt):
+                    if isinstance(m, ast.Compare) and len(m.ops) == 1 and isinstance(m.ops[0], ast.NotEq) and unparse(m.left) == unparse(m.comparators[0]):
+                        return True
+                    if isinstance(m, ast.Call) and (dotted(m.func) or "").rsplit(".", 1)[-1] == "isnan":
+                        return True
+        return False
+
+    ok = nan_test_on_own_chunks(f.node)
+    rr.inst(site(f), tests_own_chunks_for_nan=ok)
+    if not ok:
+        ctx.finding(
+            rr, site(f),
+            "the default _requires_grid_preservation does not look at the node's own chunks: a node of unknown chunk sizes (d[d > c], unique, a QR stage) lets a rewrite below change the number of "
+            "blocks it was built over, and _materialize then raises 'optimization changed the block structure ... and the advertised chunks are unknown' - d[d > 10].compute() on a rolling sum "
+            "d = sliding_window_view(x, 12).sum(-1) failed",
+            func=f,
+        )
+    # the guard this contract answers to: _materialize refuses to bridge an unknown layout
+    mat = repo.mod("dask_array._materialize").func("_materialize")
+    refuses = any(isinstance(n, ast.Raise) for n in body_walk(mat.node)) and "isnan" in unparse(mat.node)
+    rr.inst(site(mat) + "::unknown layout is not bridged", present=refuses)
+    need(refuses, "_materialize's refusal to restore an unknown layout")
+    for c in repo.expr_classes():
+        if not c.module.is_unit:
+            continue
+        g = c.methods.get("chunks")
+        if g is None or "nan" not in unparse(g.node):
+            continue
+        hit = repo.class_attr(c, "_requires_grid_preservation")
+        owner = hit[0] if hit else None
+        rets = [unparse(r.value) for r in body_walk(hit[1].node) if isinstance(r, ast.Return) and r.value is not None] if hit and isinstance(hit[1], FuncInfo) else []
+        cst = f"{c.construct}::chunks manufactures nan"
+        rr.inst(cst, answered_by=owner.name if owner else None)
+        if owner is not None and (owner.fq == base.fq or rets == ["True"]):
+            continue
+        ctx.finding(rr, cst, f"{c.name} builds unknown chunk sizes but answers the grid contract through {owner.name if owner else 'nothing'} ({rets}), which neither tests for NaN nor says True", file=c.module.path, line=c.node.lineno)
+    return rr
+
+
+RULES = [r03_1, r03_2, r03_3, r03_4, r03_5, r03_6, r03_7, r03_8, r03_9, r03_10, r03_11, r03_12]
 
 LEVEL_TEXT = (
     "Static decision of the layout-barrier clause of C03 ('even when optimization internally chose a different block "
